@@ -53,10 +53,10 @@ theorem relocate_keys (h : Holder) (base : Nat) : AllRel SameKeys h.secs (reloca
     · rename_i st heq
       rw [heq] at hk
       split
-      · split
-        · exact hk
-        · exact SameKeys.trans_all hk (modifySec_keys _ _ _ (fun s => ⟨rfl, rfl, rfl⟩))
       · exact hk
+      · split
+        · exact SameKeys.trans_all hk (modifySec_keys _ _ _ (fun s => ⟨rfl, rfl, rfl⟩))
+        · exact SameKeys.trans_all hk (modifySec_keys _ _ _ (fun s => ⟨rfl, rfl, rfl⟩))
 
 theorem ensureAddrTab_inv (h : Holder) (hi : InvS h.secs) : InvS (ensureAddrTab h).1.secs := by
   unfold ensureAddrTab
